@@ -728,6 +728,12 @@ class Lib:
             if universal:
                 if pats:
                     return SV(BOOL, z3.ForAll(vs, z3.Implies(z3.And(*conds), body), patterns=pats))
+                if len(vs) == 1:
+                    # every array access indexed by exactly the bound variable is offered as an alternative
+                    # trigger (the solver's own choice may be a term that never shows up in the goal)
+                    cands = index_terms(body, vs[0])
+                    if cands:
+                        return SV(BOOL, z3.ForAll(vs, z3.Implies(z3.And(*conds), body), patterns=cands[:6]))
                 return SV(BOOL, z3.ForAll(vs, z3.Implies(z3.And(*conds), body)))
             return SV(BOOL, z3.Exists(vs, z3.And(*(conds + [body]))))
         v = ex.ev(st, a)
@@ -951,6 +957,11 @@ class Lib:
         o = ex.bvar("off")
         return SV(BOOL, z3.Exists([o], self._infix_at(ex, xs, ys, o)))
 
+    def b_same(self, ex, st, node):
+        """spec: same(a, b) - identity of the two values as terms (for sequences: also beyond their length)"""
+        a, b = ex.ev(st, node.args[0]), ex.ev(st, node.args[1])
+        return SV(BOOL, a.z == b.z)
+
     def b_trig(self, ex, st, node):
         return ex.ev(st, node.args[0])
 
@@ -959,6 +970,40 @@ class Lib:
 
     def b_iter(self, ex, st, node):
         return ex.ev(st, node.args[0])
+
+
+def index_terms(body, v):
+    """select(a, v) subterms of body whose array term does not mention v (candidate e-matching triggers)."""
+    out, seen, stack = [], set(), [body]
+    vid = v.get_id()
+
+    def mentions(t):
+        st2, sn = [t], set()
+        while st2:
+            x = st2.pop()
+            if x.get_id() in sn:
+                continue
+            sn.add(x.get_id())
+            if x.get_id() == vid:
+                return True
+            if z3.is_app(x):
+                st2.extend(x.children())
+            elif z3.is_quantifier(x):
+                st2.append(x.body())
+        return False
+    while stack:
+        t = stack.pop()
+        if t.get_id() in seen:
+            continue
+        seen.add(t.get_id())
+        if z3.is_quantifier(t):
+            continue
+        if z3.is_app(t):
+            if t.decl().kind() == z3.Z3_OP_SELECT and t.arg(1).get_id() == vid and not mentions(t.arg(0)):
+                if all(o.get_id() != t.get_id() for o in out):
+                    out.append(t)
+            stack.extend(t.children())
+    return out
 
 
 # -------------------------------------------------------------------- helper constructions
@@ -1172,7 +1217,35 @@ def flatten(ex, st, a):
                                                        rt.arr(r.z)[p] ==
                                                        inner.arr(aa[blk(a.z, p)])[p - off(a.z, blk(a.z, p))])),
                                 patterns=[rt.arr(r.z)[p]]))
+    # offsets depend only on the block lengths (provable by induction on k; assumed here as a library fact)
+    key2 = ("flat-shape", a.t.key())
+    if key2 not in st.seen:
+        st.seen.add(key2)
+        A = ex.bvar("A", a.t.sort())
+        B = ex.bvar("B", a.t.sort())
+        k = ex.bvar("k")
+        p = ex.bvar("p")
+        same_shape = z3.And(a.t.len(A) == a.t.len(B),
+                            z3.ForAll([k], z3.Implies(z3.And(0 <= k, k < a.t.len(A)),
+                                                      inner.len(a.t.arr(A)[k]) == inner.len(a.t.arr(B)[k]))))
+        ex.used_lib.add("flatten / np.concatenate: the offset of block k is the sum of the lengths of the blocks "
+                        "before it, so two block lists of the same shape have the same offsets and block map")
+        st.hyps.append(z3.ForAll([A, B], z3.Implies(same_shape, z3.And(
+            rt.len(res(A)) == rt.len(res(B)),
+            z3.ForAll([k], z3.Implies(z3.And(0 <= k, k <= a.t.len(A)), off(A, k) == off(B, k)),
+                      patterns=[off(A, k)]),
+            z3.ForAll([p], z3.Implies(z3.And(0 <= p, p < rt.len(res(A))), blk(A, p) == blk(B, p)),
+                      patterns=[blk(A, p)]))),
+            patterns=[z3.MultiPattern(res(A), res(B))]))
     return r
+
+
+@libfn("utils.flatten", "flatten", "np.concatenate", "numpy.concatenate",
+       stmt="flatten(list of sequences) / np.concatenate(list of arrays) = their concatenation in order")
+def _flatten_fn(ex, st, node):
+    a = ex.ev(st, node.args[0])
+    r = flatten(ex, st, a)
+    return SV(r.t.with_kind("nd"), r.z)
 
 
 LIB = Lib()
